@@ -136,7 +136,7 @@ reg('C02',
     deadline={'quick': 100, 'thorough': 1500},
     level=MC,
     technique='bounded-exhaustive enumeration of (command table, message) pairs executed through SCPI_Input (ASan, tail-poisoned input buffer), compared with a reference interpreter of the header-path and first-match rules',
-    rule={'quick': 'command tables: every ordered pair (90) and triple (720) of a pool of 10 overlapping patterns plus the whole pool in two orders; messages: every sequence of 1..3 units (1..2 for triples) over 24 header spellings (short/long, letter case, leading colon, optional keyword present/absent, numeric suffix, common, undefined with and without colons) x 2 separator styles; non-trivial = every message (each is compared unit by unit with the reference trace)',
+    rule={'quick': 'command tables: every ordered pair (90) and triple (720) of a pool of 10 overlapping patterns plus the whole pool in two orders; messages: every sequence of 1..3 units (1..2 for triples) over 26 header spellings (handlers of every second table entry fail with -200) (short/long, letter case, leading colon, optional keyword present/absent, numeric suffix, common, undefined with and without colons) x 2 separator styles; non-trivial = every message (each is compared unit by unit with the reference trace)',
           'thorough': 'as quick with 1..4 units (1..3 for triples), additionally in the no-info build'},
     assumptions=['after a common (*) command the next unit uses its header as written, as the statement says',
                  'the -113 text only has to contain the header as written'],
@@ -167,7 +167,7 @@ reg('C06',
     deadline={'quick': 100, 'thorough': 1500},
     level=MC,
     technique='bounded-exhaustive enumeration of messages x predecessor histories executed through SCPI_Input (ASan), byte-exact comparison of write()/flush() with a framing model',
-    rule={'quick': 'every message of 1..5 units over 17 unit kinds (commands OK/ERR/with unread parameter; queries emitting 0/1/2/4 results of 16 rotating result types - integers in 4 bases, float, double, bool, text, mnemonic, blocks whole and streamed, ASCII and binary arrays incl. empty ones, error - then OK / ERR / ERR with own error / parameter left unread; undefined header; invalid unit; empty unit), each on a fresh context and after each of 12 predecessor messages; non-trivial = message in which at least one unit responds',
+    rule={'quick': 'every message of 1..5 units over 17 unit kinds (commands OK/ERR/with unread parameter; queries emitting 0/1/2/4 results of 16 rotating result types - integers in 4 bases, float, double, bool, text, mnemonic, blocks whole and streamed, ASCII and binary arrays incl. empty ones, error - then OK / ERR / ERR with own error / parameter left unread; undefined header; invalid unit; empty unit), each on a fresh context and after each of 12 predecessor messages; plus units with 254..1025 result items; non-trivial = message in which at least one unit responds',
           'thorough': 'messages of 1..6 units (6-unit messages after 4 histories)'},
     assumptions=['a unit responds iff it is a query whose handler emitted at least one result or completed without error (an empty successful query is an empty response unit)',
                  'non-query handlers emit nothing (a command that writes results is handler misuse)'],
@@ -197,7 +197,7 @@ reg('C08',
     deadline={'quick': 100, 'thorough': 1500},
     level=MC,
     technique='exhaustive enumeration of input segmentations (schedules) of bounded streams on the real SCPI_Input (ASan, tail-poisoned buffer), differential against the byte-at-a-time schedule',
-    rule={'quick': 'streams: every concatenation of 1..3 messages of a 13-message alphabet (block with embedded NL and ;, quoted string with embedded ; and with embedded NL, empty units, CR LF, undefined header, missing parameter, dangling comma, trailing blanks, exponent number, common+compound), optionally followed by an unterminated unit (5 tails); schedules: EVERY partition for streams <= 14 bytes, else every partition with <= 2 cut points + every uniform chunk size + all-at-once, in a 256-byte and an exactly-fitting input buffer, against one byte per call; plus the zero-length-call clause on every prefix; non-trivial = every schedule run (each is compared with the reference schedule)',
+    rule={'quick': 'streams: every concatenation of 1..3 messages of a 14-message alphabet (block with embedded NL and ;, quoted string with embedded ; and with embedded NL, empty units, CR LF, bare CR, undefined header, missing parameter, dangling comma, trailing blanks, exponent number, common+compound), optionally followed by an unterminated unit (5 tails); schedules: EVERY partition for streams <= 14 bytes, else every partition with <= 2 cut points + every uniform chunk size + all-at-once, in a 256-byte and an exactly-fitting input buffer, against one byte per call; plus the zero-length-call clause on every prefix; non-trivial = every schedule run (each is compared with the reference schedule)',
           'thorough': 'streams of 1..4 messages, also in the static-heap build'},
     assumptions=['return values of the individual SCPI_Input calls are not compared (they are per call, not per message)',
                  'known finding: a line terminator inside a quoted string is acted on when the chunk boundary falls inside the string (known_findings.txt)'],
@@ -239,7 +239,7 @@ reg('C17',
     deadline={'quick': 100, 'thorough': 900},
     level=MC,
     technique='bounded-exhaustive enumeration of result calls (element type x count x format x pattern; block lengths; every short header/data call script) inside a real query handler (ASan), byte-exact comparison with an independent block encoder',
-    rule={'quick': 'arrays: 10 element types x every count 0..300 x {NORMAL, SWAPPED} x 4 value patterns (+ uint16[40000], int64[9000]) each followed by SCPI_ResultInt32; SCPI_ResultArbitraryBlock of every length 0..1100 x 3 byte patterns and 65535 / 65536 / 70000 bytes, one-shot and streamed; header-only calls for 10^k-1, 10^k, 10^k+1 (k <= 8) and 999999999; every sane script of <= 5 calls over {Header(0,1,2,4), Data(0..3)} incl. over-length data and abandoned blocks; non-trivial = case whose output matched the encoder byte for byte and whose refusals were counted',
+    rule={'quick': 'arrays: 10 element types x every count 0..300 x {NORMAL, SWAPPED} x 4 value patterns (+ uint16[40000], int64[9000]) each followed by SCPI_ResultInt32; SCPI_ResultArbitraryBlock of every length 0..1100 x 3 byte patterns and 65535 / 65536 / 70000 bytes, one-shot and streamed; header-only calls for 10^k-1, 10^k, 10^k+1 (k <= 8) and 999999999; every sane script of <= 5 calls over {Header(0,1,2,4), Data(0..3), one-shot Block(2), one-element array NORMAL/SWAPPED} incl. over-length data, stray data behind a complete block and abandoned blocks; non-trivial = case whose output matched the encoder byte for byte and whose refusals were counted',
           'thorough': 'counts 0..2000, scripts of <= 6 calls'},
     assumptions=['little-endian host (the only one available): NORMAL exercises the swapping path, SWAPPED the native path',
                  'zero-length data without an open block is handler misuse and not generated'],
